@@ -220,6 +220,12 @@ type gCase struct {
 	K    int    `json:"k"` // constrand: reads of exactly k bytes are constant; connection j uses byte value (b0 + j)
 	B0   int    `json:"b0"`
 	SNI  string `json:"sni"`
+	// custom-ks | fp-ks | json-ks | reuse-custom-ks: the parrot's spec with its GREASE key share given a body of ksbody
+	// bytes (and, with shape, the GREASE entries of cipher_suites / supported_groups / supported_versions moved to the end
+	// of their lists and a second GREASE group added) - used directly (a fresh spec per connection, or one object for all),
+	// or captured on the wire and imported back through FingerprintClientHello / through its JSON description.
+	KSBody int  `json:"ksbody"`
+	Shape  bool `json:"shape"`
 	Rand string `json:"rand"` // Config.Rand of every connection: "" (library default) | full | onebyte | chunks
 }
 
@@ -243,6 +249,13 @@ func init() {
 			var spec tls.ClientHelloSpec
 			var fpErr string
 			switch c.Mode {
+			case "custom-ks", "fp-ks", "json-ks", "reuse-custom-ks":
+				sp, err := shapedSpec(id, c)
+				if err != nil {
+					fpErr = err.Error()
+					break
+				}
+				spec = *sp
 			case "fingerprint", "reuse-fp":
 				// capture one real hello of the parrot, import it with the fingerprinter, send it as HelloCustom
 				_, h0, _, _ := wireHello(func(cn *hlib.BufConn) *tls.UConn {
@@ -270,6 +283,12 @@ func init() {
 			line++
 			g := line
 			grp := fmt.Sprintf("%s/%s", c.ID, c.Mode)
+			if c.KSBody > 0 {
+				grp += fmt.Sprintf("/ksbody=%d", c.KSBody)
+			}
+			if c.Shape {
+				grp += "/shaped"
+			}
 			if c.Rand != "" {
 				grp += "/rand=" + c.Rand
 			}
@@ -281,7 +300,7 @@ func init() {
 				continue
 			}
 			res := make([]map[string]any, c.N)
-			shared := c.Mode == "reuse-id" || c.Mode == "reuse-fp" || c.Mode == "reuse-custom"
+			shared := c.Mode == "reuse-id" || c.Mode == "reuse-fp" || c.Mode == "reuse-custom" || c.Mode == "reuse-custom-ks"
 			run := hlib.Parallel
 			if shared { // the connections share mutable extension objects: strictly one after the other
 				run = func(n int, fn func(int)) {
@@ -301,6 +320,17 @@ func init() {
 					if shared {
 						u := tls.UClient(cn, cfg, tls.HelloCustom)
 						if err := u.ApplyPreset(&spec); err != nil {
+							return nil
+						}
+						return u
+					}
+					if c.Mode == "custom-ks" || c.Mode == "fp-ks" || c.Mode == "json-ks" {
+						sp, err := shapedSpec(id, c)
+						if err != nil {
+							return nil
+						}
+						u := tls.UClient(cn, cfg, tls.HelloCustom)
+						if err := u.ApplyPreset(sp); err != nil {
 							return nil
 						}
 						return u
@@ -393,4 +423,69 @@ func deplaceholder(spec *tls.ClientHelloSpec) {
 			x.Value = alt[4]
 		}
 	}
+}
+
+// shapedSpec builds a fresh spec for the *-ks modes (see gCase).
+func shapedSpec(id tls.ClientHelloID, c gCase) (*tls.ClientHelloSpec, error) {
+	spec, err := tls.UTLSIdToSpec(id)
+	if err != nil {
+		return nil, err
+	}
+	toEnd16 := func(l []uint16) {
+		for i, v := range l {
+			if isGrease(v) {
+				copy(l[i:], l[i+1:])
+				l[len(l)-1] = v
+				return
+			}
+		}
+	}
+	if c.Shape {
+		toEnd16(spec.CipherSuites)
+	}
+	found := false
+	for _, e := range spec.Extensions {
+		switch x := e.(type) {
+		case *tls.KeyShareExtension:
+			for i := range x.KeyShares {
+				if isGrease(uint16(x.KeyShares[i].Group)) {
+					x.KeyShares[i].Data = make([]byte, c.KSBody)
+					found = true
+				}
+			}
+		case *tls.SupportedCurvesExtension:
+			if c.Shape {
+				for i, v := range x.Curves {
+					if isGrease(uint16(v)) {
+						copy(x.Curves[i:], x.Curves[i+1:])
+						x.Curves[len(x.Curves)-1] = v
+						x.Curves = append([]tls.CurveID{tls.GREASE_PLACEHOLDER}, x.Curves...)
+						break
+					}
+				}
+			}
+		case *tls.SupportedVersionsExtension:
+			if c.Shape {
+				toEnd16(x.Versions)
+			}
+		}
+	}
+	if !found {
+		return nil, fmt.Errorf("spec of %s has no GREASE key share", id.Str())
+	}
+	if c.Mode == "custom-ks" || c.Mode == "reuse-custom-ks" {
+		return &spec, nil
+	}
+	h, es := sendSpec(&spec, c.SNI)
+	if es != "" {
+		return nil, fmt.Errorf("capturing the shaped hello: %s", es)
+	}
+	if c.Mode == "fp-ks" {
+		return (&tls.Fingerprinter{AllowBluntMimicry: true}).FingerprintClientHello(helloRecord(h))
+	}
+	doc, err := renderJSON(h)
+	if err != nil {
+		return nil, err
+	}
+	return (&tls.Fingerprinter{}).UnmarshalJSONClientHello(doc)
 }
